@@ -275,8 +275,12 @@ def analyse(res: Result, sim: simnet.Sim, sc: Dict[str, Any], model: ResponderMo
                     s = s_hi if s_hi is not None else s_lo
                     lo, hi, jl, jh = r_lo, r_hi + 1200.0, max(r_lo + 20.0, (s or r_lo) + 1000.0), r_hi + 1200.0
                     if tcshape != "-":
-                        # queue entries of a released train are stamped with the first packet's arrival time
-                        jl = max(r_lo, (s or r_lo) + 0.0)
+                        # queue entries of a released train are stamped with the first packet's arrival time.  A sighting
+                        # *before* the first packet arrived is unambiguously "before the query arrived": one second after
+                        # it is owed.  A sighting between the first packet and the release is not covered by the wording
+                        # (the library then counts the second from the first packet): accepted from the release on.
+                        t_first = min(T0 + p["t"] for p in packets)
+                        jl = max(r_lo, (s + 1000.0) if (s is not None and s <= t_first + EPS) else r_lo)
                 serve_hi = max(serve_hi, hi)
                 just_lo, just_hi = min(just_lo, jl), max(just_hi, jh)
             obligations.append(Obligation(ident, serve_lo, serve_hi, just_lo, just_hi, "+".join(sorted(classes)), tcshape))
